@@ -1,13 +1,13 @@
 package main
 
 import (
-	"strings"
 	"encoding/json"
 	"flag"
 	"fmt"
 	"os"
 	"path/filepath"
 	"strconv"
+	"strings"
 	"time"
 )
 
